@@ -107,6 +107,43 @@ func BuildCRL(s CRLSpec) []byte {
 	return dt.Seq(dt.Seq(tbs...), AlgID(OIDSHA256WithRSA, true), dt.Prim(0, 3, sig)).Encode()
 }
 
+// RichCRLs are synthetic revocation lists that carry what the test corpus lacks: an
+// issuingDistributionPoint with every field, delta / freshest-CRL indicators, entry extensions (reason,
+// invalidity date, certificate issuer), dated inside the window of every CRL lint of today. Bases for the
+// enumerated sweeps.
+func RichCRLs() []Obj {
+	this := time.Date(2024, 3, 1, 12, 0, 0, 0, time.UTC)
+	next := this.Add(7 * 24 * time.Hour)
+	nextLong := this.AddDate(0, 11, 0)
+	num := int64(42)
+	r1, r5 := 1, 5
+	inv := this.Add(-48 * time.Hour)
+	idpFull := MakeExt(OIDIDP, true, dt.Seq(
+		dt.Cons(2, 0, dt.Cons(2, 0, GNURI([]byte("http://crl.example.com/x.crl")))),
+		dt.Prim(2, 1, []byte{0xff}), dt.Prim(2, 2, []byte{0x00}), dt.Prim(2, 3, []byte{0x01, 0x7e}), dt.Prim(2, 4, []byte{0x00}), dt.Prim(2, 5, []byte{0x00})))
+	idpCA := MakeExt(OIDIDP, true, dt.Seq(dt.Prim(2, 2, []byte{0xff})))
+	freshest := MakeExt([]int{2, 5, 29, 46}, false, dt.Seq(dt.Seq(dt.Cons(2, 0, dt.Cons(2, 0, GNURI([]byte("http://crl.example.com/delta.crl")))))))
+	aia := MakeExt([]int{1, 3, 6, 1, 5, 5, 7, 1, 1}, false, dt.Seq(dt.Seq(dt.OID(1, 3, 6, 1, 5, 5, 7, 48, 2), GNURI([]byte("http://ca.example.com/ca.crt")))))
+	certIssuer := MakeExt(OIDCertIssuer, true, dt.Seq(GNDirName(simpleName("Indirect Issuer"))))
+	entries := []CRLEntry{{Serial: 0x1001, Date: this.Add(-72 * time.Hour), Reason: &r1, Invalidity: &inv},
+		{Serial: 0x1002, Date: this.Add(-24 * time.Hour), Reason: &r5, RawExts: []*dt.Node{certIssuer}}, {Serial: 0x1003, Date: this.Add(-time.Hour)}}
+	return []Obj{
+		{Name: "built:rich-crl-subscriber", Kind: CRL, DER: BuildCRL(CRLSpec{V2: true, ThisUpdate: this, NextUpdate: &next, Entries: entries, CRLNumber: &num, AKI: true, ExtraExts: []*dt.Node{idpFull, freshest, aia}})},
+		{Name: "built:rich-crl-ca", Kind: CRL, DER: BuildCRL(CRLSpec{V2: true, ThisUpdate: this, NextUpdate: &nextLong, Form: GenZ, Entries: entries[:1], CRLNumber: &num, AKI: true, ExtraExts: []*dt.Node{idpCA}})},
+		{Name: "built:rich-crl-delta", Kind: CRL, DER: BuildCRL(CRLSpec{V2: true, ThisUpdate: this, NextUpdate: &next, NoRevoked: true, CRLNumber: &num, AKI: true, IDP: true, Delta: true})},
+	}
+}
+
+// RichOCSPs are synthetic OCSP responses (good / revoked, by key / by name, with and without nextUpdate and nonce).
+func RichOCSPs() []Obj {
+	this := time.Date(2024, 3, 1, 12, 0, 0, 0, time.UTC)
+	next := this.Add(4 * 24 * time.Hour)
+	return []Obj{
+		{Name: "built:rich-ocsp-good", Kind: OCSP, DER: BuildOCSP(OCSPSpec{ProducedAt: this, ThisUpdate: this.Add(-time.Hour), NextUpdate: &next, CertStatus: 0, ByKey: true, Nonce: true})},
+		{Name: "built:rich-ocsp-revoked", Kind: OCSP, DER: BuildOCSP(OCSPSpec{ProducedAt: this, ThisUpdate: this, NextUpdate: &next, CertStatus: 1})},
+	}
+}
+
 // DrawBuiltCRL draws a CRL spec and renders it.
 func DrawBuiltCRL(t *rapid.T) ([]byte, []string) {
 	s := CRLSpec{V2: rapid.IntRange(0, 19).Draw(t, "v2") > 0, Form: TimeForm(rapid.IntRange(0, 3).Draw(t, "form"))}
@@ -114,7 +151,12 @@ func DrawBuiltCRL(t *rapid.T) ([]byte, []string) {
 	ops := []string{"this=" + s.ThisUpdate.Format(time.RFC3339)}
 	if rapid.IntRange(0, 5).Draw(t, "hasnext") > 0 {
 		var d time.Duration
-		switch rapid.IntRange(0, 6).Draw(t, "nextd") {
+		switch rapid.IntRange(0, 9).Draw(t, "nextd") {
+		case 7, 8, 9:
+			// calendar arithmetic: twelve months / one year / ten days later, give or take a second or a day
+			cal := [][3]int{{0, 12, 0}, {1, 0, 0}, {0, 0, 10}, {0, 11, 0}, {0, 13, 0}, {0, 12, 1}, {0, 12, -1}}[rapid.IntRange(0, 6).Draw(t, "calspan")]
+			nu := s.ThisUpdate.AddDate(cal[0], cal[1], cal[2]).Add([]time.Duration{0, -time.Second, time.Second, -24 * time.Hour, 24 * time.Hour, 12 * time.Hour}[rapid.IntRange(0, 5).Draw(t, "caloff")])
+			d = nu.Sub(s.ThisUpdate)
 		case 0:
 			d = 10 * 24 * time.Hour
 		case 1:
